@@ -4,6 +4,15 @@
 K = {"name": "TestKnown", "enum": True}
 
 CHECKS = {
+    "C12": {
+        "level": "exploration",
+        "tests": [
+            {"name": "TestC12Macros", "checks": [2000, 10000], "shards": [2, 16], "floor": 0.8},
+            {"name": "TestC12Arity", "enum": True},
+            K,
+        ],
+        "assumptions": ["macro bodies read only their parameters (README: macros have their own scope) plus names they assign themselves; macro results are observed in print position only"],
+    },
     "C11": {
         "level": "exploration",
         "tests": [
